@@ -67,4 +67,34 @@ CLAIMS['C18'] = dict(
     note=('relative to: clang-14 lowering, effect and throw summaries, CFG paths not pruned for feasibility (conservative); FILE* / '
           'ostream sinks are not targets; leak-freedom on these paths is C19'),
     technique='static analysis: typestate-style event ordering on CFGs with interprocedural effect and throw summaries')
+CLAIMS['C01'] = dict(
+    level='proof',
+    text=('Bit provenance of every unit written by write_utf8 / write_utf16 and of every scalar decoded by extract_utf8 / extract_utf16 '
+          '(and of the Latin-1 loops) is compared bit for bit with Unicode Table 3-6 / 3-5, per value class, the class boundaries being '
+          'read off the path conditions; an SSA dataflow rule shows the decoded value reaches the target encoder unmodified in each of the '
+          '12 convert loops; the forwarding overloads hand on the (pointer,size) of their own argument. With C03 (unit-exact loops) and '
+          'C02 (mode independence on well-formed classes) this gives the standard encoding of the same scalars for any chain of conversions.'),
+    note=('relative to: clang-14 lowering, STIR + bit-provenance evaluator, the transcribed tables; 32-bit wchar_t only; ST::string members and '
+          'literal operators are covered as forwarders of the st_utf_conv.h entry points through C03 R03.3/R03.5, not re-derived here'),
+    technique='static analysis: abstract interpretation with a bit-provenance domain vs the Unicode encoding tables; SSA dataflow; call-graph forwarding')
+CLAIMS['C02'] = dict(
+    level='proof',
+    text=('The decision table of the property is enumerated as abstract input classes (range of each unit at the cursor x units remaining: '
+          '48 UTF-8, 10 UTF-16, 3 UTF-32 classes); validate_utf8, cleanup_utf8, extract_utf8 and every converter are interpreted for one '
+          'arbitrary iteration under each class, mode and flag (735 runs) and must accept / reject / substitute exactly as the table says, '
+          'skipping exactly one unit on rejection. Error mapping, set() dispatch, substitute constants and the spelling of all 111 '
+          'instantiated default arguments (AST query) complete the argument; induction over iterations extends it to whole inputs.'),
+    note=('relative to: clang-14 lowering, STIR, the transcribed table; behaviour of assume_valid on malformed input is only required to be '
+          'total (C03); 5 default arguments in never-instantiated 16-bit-wchar_t templates are not covered'),
+    technique='static analysis: exhaustive abstract case analysis by path-sensitive interpretation of loop iterations; clang-query AST facts')
+CLAIMS['C03'] = dict(
+    level='proof',
+    text=('For each of the 12 measure/convert pairs (+ cleanup_utf8 run twice, + validate_utf8) one arbitrary loop iteration is interpreted '
+          'with the cursor symbolic; convert continues in the abstract state where measure ended, so only consistent path pairs (438) are '
+          'compared: same units consumed, stored units = measured units, stores contiguous, every input read inside [input,input+size), '
+          'at least one unit consumed, no assertion reachable. Induction over iterations gives exact sizing and memory safety for inputs '
+          'of any length below the documented 2^28 bound; wrapper wiring and throw sets come from the fact base.'),
+    note=('relative to: clang-14 lowering, STIR; inputs < 2^28 units (library contract); the result object\'s size()/NUL is C05\'s allocate; '
+          '32-bit wchar_t'),
+    technique='static analysis: per-iteration step summaries in lockstep (abstract interpretation), inductive argument over loop iterations')
 NOT_APPLICABLE = {}
